@@ -256,11 +256,13 @@ IsJsonOp(o) == o \in {"list_json", "list_all_json"}
 ReadyItems(its) == SelectSeq(its, LAMBDA it : it.status = "Ready")
 
 C15 ==
-  (AtListReturn /\ op \in {"list", "list_json"} /\ ~D.lenient /\ C15Space(file, D)) =>
-     LET regs == ReadyRegions(D) IN
+  (AtListReturn /\ op \in {"list", "list_json"}) =>
+   LET DD == D IN
+   (~DD.lenient /\ C15Space(file, DD)) =>
+     LET regs == ReadyRegions(DD) IN
      /\ Len(items) = Len(regs)
      /\ \A k \in 1..Len(items) : items[k].status = "Ready"
-     /\ op = "list_json" => (res.json_ok /\ \A k \in 1..Len(regs) : items[k].lr = LineRange(D, regs[k]))
+     /\ op = "list_json" => (res.json_ok /\ \A k \in 1..Len(regs) : items[k].lr = LineRange(DD, regs[k]))
      /\ op = "list" => (res.split_ok /\ \A k \in 1..Len(regs) :
                             (\A i \in 1..Len(file) : file[i] # CR) =>
                                Highlighted(items[k].raw) = ExpandTabs(Slice(file, regs[k][1], regs[k][2])))
@@ -271,18 +273,22 @@ C15 ==
           /\ (h.op = op /\ h.src = file /\ h.cfg = cfg) => h.out = out          \* listing is a pure function
 
 C16 ==
-  (AtListReturn /\ ~D.lenient /\ C16Space(file, D) /\ \A i \in 1..Len(file) : file[i] # CR) =>
-     LET regs == IF op \in {"list", "list_json"}
-                 THEN [k \in 1..Len(ReadyRegions(D)) |-> <<ReadyRegions(D)[k], "Ready">>]
-                 ELSE AllRegions(D)
+  AtListReturn =>
+   LET DD == D IN
+   (~DD.lenient /\ C16Space(file, DD) /\ \A i \in 1..Len(file) : file[i] # CR) =>
+     LET rr == ReadyRegions(DD)
+         regs == IF op \in {"list", "list_json"}
+                 THEN [k \in 1..Len(rr) |-> <<rr[k], "Ready">>]
+                 ELSE AllRegions(DD)
      IN /\ IsJsonOp(op) =>
             /\ res.json_ok
             /\ Len(items) = Len(regs) =>
                  \A k \in 1..Len(regs) :
-                    /\ items[k].lr = LineRange(D, regs[k][1])
-                    /\ IF ColumnsDetermined(file, D.br, regs[k][1])
-                       THEN items[k].block = RenderItem(file, D.br, regs[k][1])
-                       ELSE MiddleOf(items[k].block) = MiddleOf(RenderItem(file, D.br, regs[k][1]))
+                    LET want == RenderItem(file, DD.br, regs[k][1]) IN
+                    /\ items[k].lr = LineRange(DD, regs[k][1])
+                    /\ IF ColumnsDetermined(file, DD.br, regs[k][1])
+                       THEN items[k].block = want
+                       ELSE MiddleOf(items[k].block) = MiddleOf(want)
         /\ ~IsJsonOp(op) =>
             /\ res.split_ok
             \* pretty form with colour codes stripped = JSON form, item by item
@@ -293,11 +299,13 @@ C16 ==
                     /\ \A k \in 1..Len(items) : items[k].block = h.items[k].block /\ items[k].status = h.items[k].status
 
 C17 ==
-  (AtListReturn /\ op = "list_all_json" /\ ~D.lenient /\ C15Space(file, D)) =>
-     LET regs == AllRegions(D) IN
+  (AtListReturn /\ op = "list_all_json") =>
+   LET DD == D IN
+   (~DD.lenient /\ C15Space(file, DD)) =>
+     LET regs == AllRegions(DD) IN
      /\ res.json_ok
      /\ Len(items) = Len(regs)
-     /\ \A k \in 1..Len(regs) : items[k].lr = LineRange(D, regs[k][1]) /\ items[k].status = regs[k][2]
+     /\ \A k \in 1..Len(regs) : items[k].lr = LineRange(DD, regs[k][1]) /\ items[k].status = regs[k][2]
      \* Ready part identical to the plain list
      /\ \A i \in 1..(Len(hist) - 1) :
           LET h == hist[i] IN
